@@ -513,6 +513,10 @@ func (c *Ctx) progressRules(r *Report) {
 				x := call.Common().Args[0]
 				xt := c.term(x)
 				nValid++
+				if nc, ok := c.resolve(x).(*ssa.Call); ok && c.calleeName(nc.Common()) == "reflect.New" {
+					r.OK("VALID", c.fname(fn), "Elem() only of a value known not to be nil", c.ipos(in), "the receiver is the result of reflect.New: a non-nil pointer")
+					continue
+				}
 				setX := func(i ssa.Instruction) bool {
 					ci, ok := i.(ssa.CallInstruction)
 					return ok && c.calleeName(ci.Common()) == "(reflect.Value).Set" && c.term(ci.Common().Args[0]) == xt
